@@ -17,7 +17,11 @@ use std::str::FromStr;
 use std::string::ToString;
 use std::sync::atomic::{AtomicU32, Ordering};
 use std::sync::mpsc::{channel, Receiver, Sender};
-use std::sync::{Arc, Mutex};
+#[cfg(rfsm_verif)]
+use crate::verif::sync::Mutex;
+use std::sync::Arc;
+#[cfg(not(rfsm_verif))]
+use std::sync::Mutex;
 use std::thread::JoinHandle;
 use std::{fmt, thread};
 
